@@ -335,11 +335,23 @@ void World::check_purity_begin()
     pm_del = g_disk.lib_deletes;
     pm_changes = g_taps.total_changes();
     pm_hash = g_disk.image_hash(false);
+    // a journal left by a failed call whose rollback could not complete (device fault that persisted): the next access of
+    // that file - reading included - plays it back.  That recovery restores the content the database had; it is SQLite's
+    // crash recovery, not a modification by the observing call, and the byte-level monitor cannot tell the two apart
+    pm_hot_journal = false;
+    for (auto& kv : g_disk.files)
+        if (kv.first.size() > 8 && kv.first.compare(kv.first.size() - 8, 8, "-journal") == 0 && !kv.second->bytes.empty())
+            pm_hot_journal = true;
 }
 
 void World::check_purity_end(const char* what)
 {
     std::string base = "C16|" + std::string(what) + "|" + fam() + "|";
+    if (pm_hot_journal)
+    {
+        probes.hit("purity_block_skipped_recovery_pending");
+        return;
+    }
     if (g_disk.lib_writes != pm_writes || g_disk.lib_truncates != pm_trunc)
         report("C16", base + "disk-write", "observing calls wrote to the database files");
     if (g_taps.total_changes() != pm_changes)
@@ -458,6 +470,18 @@ void World::after_step(const StepEffect& e)
                        prop + "|" + e.op + "|" + fam() +
                            (by_fault ? "|partial-update|" + fault_site(e.fault) : "|rejected-but-changed"),
                        e.op + " threw " + e.out.exc + " but the observable state changed: " + first_diff_line(a, b));
+                if (faulted && (e.fault.kind == FK_TICK || e.fault.kind == FK_VFS || e.fault.kind == FK_MALLOC) &&
+                    plan.cfg.profile.compare(0, 6, "atomic") != 0)
+                {
+                    // a real-path fault inside an ordinary history left a state that is neither before nor after: the
+                    // world is outside every model (half a two-file commit, ...).  It has been reported (C14); whatever
+                    // the other oracles would say about this state and its successors is a consequence, not a finding.
+                    stop = true;
+                    stop_reason = "partial update after a real-path fault: the world left the model";
+                    prev = cur;
+                    have_prev = true;
+                    return;
+                }
             }
             else if (faulted)
                 probes.hit("atomic_failure_confirmed");
